@@ -220,10 +220,14 @@ def reimplemented : List (String × Nat) :=
 
 end FqModel.JqEnv
 
-/-! ## `_re_quote_meta` (binary.jq:8-10), the heart of fq's re-implementation of split/1
+/-! ## `_re_quote_meta` (binary.jq:8-10): literal split through the regex engine
 
-    `def split($val): [splits($val | _re_quote_meta)];` — splitting on a literal string through the regex
-    engine is right iff the quoted string, read as an RE2 pattern, denotes exactly the literal. -/
+    `def split($val): _bytes_or_orig([_splits_binary($val | _re_quote_meta; "g")]; _orig_split($val));`
+    (until 2e7d2332 `[splits($val | _re_quote_meta)]` for every input) — splitting on a literal string
+    through the regex engine is right iff the quoted string, read as an RE2 pattern, denotes exactly the
+    literal. Since 2e7d2332 only Binary inputs take this road (JSON strings go to the builtin through the
+    guard), so the differential run on JSON inputs no longer exercises it: the obligation below is what
+    keeps the quoting right. -/
 namespace FqModel.JqEnv
 
 /-- the RE2 metacharacters, i.e. Go's regexp.QuoteMeta set  \ . + * ? ( ) | [ ] { } ^ $  (code points) -/
